@@ -56,6 +56,21 @@ class C19(Check):
         return c09.run_sel(case)
 
     def oracle(self, case, obs):
+        """what every correct implementation satisfies on every single call, however it draws its random numbers (the distributional
+        clauses themselves can only be refuted statistically: see search)"""
+        k = case["kind"]
+        if k == "cross":
+            return c12.dex_oracle(case["variant"], float.fromhex(case["CR"]), decarr(case["X"], 2), decarr(case["V"], 2), decarr(obs["U"], 2), tag="C19")
+        if k == "mutate":
+            X = np.array([decarr(m, 2) for m in case["X"]])
+            F = tuple(case["F"]) if isinstance(case["F"], list) else case["F"]
+            return c10.mut_property_oracle(F, case["gamma"], X, decarr(obs["V"], 2), None if obs["d"] is None else decarr(obs["d"], 2), tag="C19", scripted="rand_values" in case)
+        if k == "repair":
+            return c11.repair_oracle(case["name"], decarr(case["X"]), decarr(case["Xb"]), decarr(case["xl"]), decarr(case["xu"]), decarr(obs["Z"]), tag="C19")
+        return c09.sel_oracle(case["variant"], case["n_pop"], case["n_parents"], case["ranks"], obs["P"], tag="C19")
+
+    def draw_protocol(self, case, obs):
+        """which draw feeds which output (the map the theorems characterise): belongs to the correspondence"""
         k = case["kind"]
         ev = dec_events(obs["events"])
         if k == "cross":
@@ -137,6 +152,11 @@ class C19(Check):
 
     def coq(self, case, obs):
         k = case["kind"]
+        try:
+            if self.draw_protocol(case, obs):
+                return "false"
+        except Exception:
+            return "false"
         if k == "cross":
             return c12.dex_term(case["variant"], float.fromhex(case["CR"]), decarr(case["X"], 2), decarr(case["V"], 2), dec_events(obs["events"]), decarr(obs["U"], 2))
         if k == "mutate":
@@ -161,7 +181,7 @@ class C19(Check):
         from pymoode.operators import dex
         from pymoode.operators.dem import DEM, bounce_back, rand_init
         from scipy import stats
-        n_tests = 60; alpha = 1e-9 / n_tests
+        n_tests = 200; alpha = 1e-9 / n_tests
         rs = np.random.RandomState(12345 + self.seed); st = np.random.get_state(); np.random.seed(777 + self.seed)
         n_cases = 0
         try:
@@ -190,6 +210,104 @@ class C19(Check):
                 pv = stats.kstest((F - lo) / (hi - lo), "uniform").pvalue
                 if pv < alpha or F.min() < lo or F.max() > hi:
                     return ({"kind": "stat", "test": "dither", "range": [lo, hi]}, {}, "C19-stat: dithered scale factor is not uniform over [%r, %r] (KS p=%.1e)" % (lo, hi, pv)), None, n_cases
+            # the remaining clauses, through the public operators only (no assumption on how they draw)
+            def fail(test, info, msg):
+                return ({"kind": "stat", "test": test, **info}, {}, "C19-stat: " + msg), None, n_cases
+            N = 40000
+            # forced coordinate (CR = 0): exactly one coordinate, uniform over the variables, for both crossovers
+            for variant in ("bin", "exp"):
+                for v in (2, 3, 5):
+                    n_cases += 1
+                    f = dex.cross_binomial if variant == "bin" else dex.cross_exp
+                    M = f(N, v, 0.0, True)
+                    if np.any(M.sum(axis=1) != 1):
+                        return fail("forced-count", {"variant": variant, "n_var": v}, "%s crossover with CR=0 does not take exactly one coordinate from the mutant" % variant)
+                    cnt = M.sum(axis=0).astype(float); pv = stats.chisquare(cnt).pvalue
+                    if pv < alpha:
+                        return fail("forced-uniform", {"variant": variant, "n_var": v, "observed": cnt.tolist()}, "the forced coordinate of %s crossover is not uniform over the variables (p=%.1e)" % (variant, pv))
+            # exponential block: start uniform over the variables
+            for v in (3, 5):
+                n_cases += 1
+                M = dex.cross_exp(N, v, 0.5, True)
+                one = M.sum(axis=1) == 1
+                cnt = M[one].sum(axis=0).astype(float); pv = stats.chisquare(cnt).pvalue
+                if pv < alpha:
+                    return fail("exp-start", {"n_var": v, "observed": cnt.tolist()}, "the start of the exponential block is not uniform over the variables (p=%.1e)" % pv)
+            # jitter: Feff / F - 1 uniform on [-gamma/2, gamma/2), for large, default and small gamma
+            for gamma in (1.0, 1e-2, 1e-4, 1e-5, 1e-6):
+                n_cases += 1
+                n, v = 20000, 2
+                X = np.zeros((3, n, v)); X[1] = 1.0
+                V = DEM(F=0.8, gamma=gamma, n_diffs=1).de_mutation(X.copy())
+                V = V[0] if isinstance(V, tuple) else V
+                z = (np.asarray(V, dtype=float).ravel() / 0.8 - 1.0) / gamma + 0.5
+                pv = stats.kstest(z, "uniform").pvalue
+                if pv < alpha or z.min() < -1e-6 or z.max() > 1 + 1e-6:
+                    return fail("jitter", {"gamma": gamma}, "jitter with gamma=%g is not uniform and centred on 1 (KS p=%.1e, range of (Feff/F-1)/gamma: [%.3f, %.3f])" % (gamma, pv, z.min() - 0.5, z.max() - 0.5))
+            # dither through de_mutation: one factor per mutant AND difference vector (independent)
+            n_cases += 1
+            n = 20000; X = np.zeros((5, n, 2)); X[1, :, 0] = 1.0; X[3, :, 1] = 1.0
+            V = DEM(F=(0.2, 1.2), gamma=None, n_diffs=2).de_mutation(X.copy()); V = V[0] if isinstance(V, tuple) else V
+            f1, f2 = np.asarray(V)[:, 0], np.asarray(V)[:, 1]
+            for nm, f in (("first", f1), ("second", f2)):
+                pv = stats.kstest((f - 0.2), "uniform").pvalue
+                if pv < alpha:
+                    return fail("dither-mutation", {"which": nm}, "the dithered factor of the %s difference vector is not uniform over the range (KS p=%.1e)" % (nm, pv))
+            r = abs(np.corrcoef(f1, f2)[0, 1])
+            if r > 8 / math.sqrt(n):
+                return fail("dither-independent", {"corr": float(r)}, "the scale factors of two difference vectors of one mutant are not drawn independently (correlation %.3f)" % r)
+            # repairs: bounce-back / rand-init uniform on their segment
+            for nm, f in (("bounce-back", bounce_back), ("rand-init", rand_init)):
+                for side in ("lower", "upper"):
+                    n_cases += 1
+                    n = 40000; xl = np.array([0.0]); xu = np.array([2.0]); Xb = np.full((n, 1), 0.5)
+                    X = np.full((n, 1), -1.0 if side == "lower" else 3.0)
+                    Z = np.asarray(f(X.copy(), Xb, xl, xu), dtype=float).ravel()
+                    if nm == "bounce-back":
+                        z = (Z - 0.0) / 0.5 if side == "lower" else (2.0 - Z) / 1.5
+                    else:
+                        z = Z / 2.0
+                    pv = stats.kstest(z, "uniform").pvalue
+                    if pv < alpha or z.min() < 0 or z.max() > 1:
+                        return fail("repair", {"strategy": nm, "side": side}, "%s does not place %s violations uniformly on its segment (KS p=%.1e)" % (nm, side, pv))
+            # parents: every randomly drawn entry uniform over the admissible individuals, per row and column, for every variant;
+            # for 'ranked' with tied ranks every role uniform as well
+            from pymoode.operators.des import DES
+            from pymoo.core.population import Population
+            from pymoo.core.problem import Problem
+            n_pop = 8; reps = 6000
+            prob = Problem(n_var=1, n_obj=1, xl=0.0, xu=1.0)
+            for variant, n_par, ranks in (("rand", 3, None), ("best", 3, None), ("current-to-best", 5, None), ("current-to-rand", 5, None), ("rand-to-best", 5, None),
+                                          ("ranked", 3, [0] * n_pop), ("ranked", 3, [0, 0, 0, 0, 1, 1, 1, 1]), ("rand", 7, None)):
+                n_cases += 1
+                pop = Population.new("X", np.zeros((n_pop, 1)))
+                if ranks is not None:
+                    for ind, r_ in zip(pop, ranks): ind.set("rank", r_)
+                else:
+                    for i_, ind in enumerate(pop): ind.set("rank", i_)
+                counts = np.zeros((n_pop, n_par, n_pop))
+                sel = DES(variant)
+                for _ in range(reps):
+                    P = np.asarray(sel._do(prob, pop, n_pop, n_par))
+                    for c in range(n_par):
+                        counts[np.arange(n_pop), c, P[:, c]] += 1
+                for i in range(n_pop):
+                    for c in range(n_par):
+                        col = counts[i, c]
+                        if col.max() == reps:
+                            continue                                   # a fixed role (best / current)
+                        adm = col > 0
+                        # individuals that are never admissible here: the target, and the best where it is fixed
+                        must = np.ones(n_pop, bool); must[i] = False
+                        if variant in ("best", "current-to-best", "rand-to-best"): must[0] = False
+                        if ranks is not None and len(set(ranks)) > 1:
+                            continue                                   # mixed ranks: roles are not exchangeable, only judged on the tied case
+                        if np.any(adm & ~must):
+                            return fail("parents-support", {"variant": variant, "row": i, "column": c, "observed": col.tolist()}, "DE/%s: row %d column %d draws an inadmissible individual" % (variant, i, c))
+                        pv = stats.chisquare(col[must]).pvalue
+                        if pv < alpha / 10:
+                            return fail("parents-uniform", {"variant": variant, "row": i, "column": c, "observed": col.tolist()},
+                                        "DE/%s: the parent in row %d column %d is not uniform over the admissible individuals (counts %s, p=%.1e)" % (variant, i, c, col[must].astype(int).tolist(), pv))
         finally:
             np.random.set_state(st)
         return (None, None, n_cases)
